@@ -3,7 +3,54 @@
    observable quantities only; the theorems about the model are in Props/. *)
 From HT Require Import Base.Prelude Num.Arith Amm.Formulas Amm.Guards Amm.Known World.World World.Observe.
 
+(* queries the driver put to the contracts in the state just before the operation, with their answers *)
+Inductive query : Type :=
+| QSim (p : addr) (offer : asset) (amount : N)
+| QRevSim (p : addr) (ask : asset) (amount : N)
+| QRSim (amount : N) (ops : list (asset * asset))
+| QRRevSim (amount : N) (ops : list (asset * asset))
+(* the same router questions answered by the driver composing the PAIR queries hop by hop *)
+| QRSimCompose (amount : N) (ops : list (asset * asset))
+| QRRevSimCompose (amount : N) (ops : list (asset * asset)).
+Definition eval_query (w : world) (q : query) : res (list N) :=
+  match q with
+  | QSim p o a => let* r := q_simulation w p o a in let '(x, y, z) := r in Ok [x; y; z]
+  | QRevSim p k a => let* r := q_reverse_simulation w p k a in let '(x, y, z) := r in Ok [x; y; z]
+  | QRSim a ops => let* r := q_router_simulate_ops w a ops in Ok [r]
+  | QRRevSim a ops => let* r := q_router_reverse_ops w a ops in Ok [r]
+  | QRSimCompose a ops => let* r := q_router_simulate_ops w a ops in Ok [r]
+  | QRRevSimCompose a ops => let* r := q_router_reverse_ops w a ops in Ok [r]
+  end.
+Fixpoint ops_eqb (l1 l2 : list (asset * asset)) : bool :=
+  match l1, l2 with
+  | [], [] => true
+  | (a, b) :: l1, (c, d) :: l2 => asset_eqb a c && asset_eqb b d && ops_eqb l1 l2
+  | _, _ => false
+  end.
+Definition opt_nlist_eqb (a b : option (list N)) : bool :=
+  match a, b with
+  | Some x, Some y => (fix eqb (l1 l2 : list N) := match l1, l2 with [] , [] => true | u :: l1, v :: l2 => (u =? v) && eqb l1 l2 | _, _ => false end) x y
+  | None, None => true
+  | _, _ => false
+  end.
+(* C12, router clause, on the implementation's own answers: the router's simulation equals the
+   composition of the pair queries the driver made in the same state *)
+Definition router_quotes_consistent (qs : list (query * option (list N))) : bool :=
+  forallb (fun qa =>
+    match fst qa with
+    | QRSim a ops =>
+        forallb (fun qb => match fst qb with
+                           | QRSimCompose a' ops' => if (a =? a') && ops_eqb ops ops' then opt_nlist_eqb (snd qa) (snd qb) else true
+                           | _ => true end) qs
+    | QRRevSim a ops =>
+        forallb (fun qb => match fst qb with
+                           | QRRevSimCompose a' ops' => if (a =? a') && ops_eqb ops ops' then opt_nlist_eqb (snd qa) (snd qb) else true
+                           | _ => true end) qs
+    | _ => true
+    end) qs.
+
 Record hstep := HS {
+  hs_queries : list (query * option (list N));
   hs_op : op; hs_ok : bool;
   hs_extras : list N;            (* per executed swap: offer, return, spread, commission *)
   hs_quote : list N;             (* what the driver asked the contracts to quote just before *)
@@ -317,6 +364,7 @@ Definition mon_C05 : monitor := fun L s st s' =>
 
 (* C12 (forward): the quote taken just before equals what the swap reports *)
 Definition mon_C12 : monitor := fun L s st s' =>
+  if negb (router_quotes_consistent (hs_queries st)) then (false, false) else
   if negb (hs_ok st) then (fail_unchanged st, false) else
   (match hs_op st, hs_quote st, hs_extras st with
    | OSwap p _ funds offer _ _ _ _, [qr; qs; qc], [_; r; sp; c] =>
@@ -399,6 +447,12 @@ Fixpoint nlist_eqb_w (l1 l2 : list N) : bool :=
   | a :: l1, b :: l2 => (a =? b) && nlist_eqb_w l1 l2
   | _, _ => false
   end.
+Definition query_agrees (w : world) (qa : query * option (list N)) : bool :=
+  match eval_query w (fst qa), snd qa with
+  | Ok a, Some b => nlist_eqb_w a b
+  | Err _, None => true
+  | _, _ => false
+  end.
 
 (* result: (model agrees on every step, property held on every step,
             every failing step is inside a known class, number of successful transactions) *)
@@ -410,7 +464,8 @@ Fixpoint run_hist (mon : monitor) (L : layout) (w : world) (s : list N) (steps :
       let r := exec w (hs_op st) in
       let w' := match r with Ok w' => w' | Err _ => w end in
       let s' := apply_delta s 0 (hs_delta st) in
-      let a := Bool.eqb (is_ok r) (hs_ok st) && nlist_eqb_w (observe L w') s' in
+      let a := Bool.eqb (is_ok r) (hs_ok st) && nlist_eqb_w (observe L w') s' &&
+               forallb (query_agrees w) (hs_queries st) in
       let '(p, k) := mon L s st s' in
       run_hist mon L w' s' rest (agree && a) (allp && p) (allpk && (p || k))
                (if hs_ok st then nok + 1 else nok)
@@ -433,6 +488,6 @@ Fixpoint hist_trace (mon : monitor) (L : layout) (w : world) (s : list N) (steps
       let r := exec w (hs_op st) in
       let w' := match r with Ok w' => w' | Err _ => w end in
       let s' := apply_delta s 0 (hs_delta st) in
-      (i, is_ok r, hs_ok st, nlist_eqb_w (observe L w') s', fst (mon L s st s'))
+      (i, is_ok r, hs_ok st, nlist_eqb_w (observe L w') s' && forallb (query_agrees w) (hs_queries st), fst (mon L s st s'))
         :: hist_trace mon L w' s' rest (i + 1)
   end.
